@@ -1,8 +1,49 @@
 import PymtlVerif.Driver.Sexp
-/-! Handler `queue` (stub: not built yet). -/
-namespace PV.Driver.Queue
-open PV
+import PymtlVerif.Model.Queue
+/-! Handler `queue`: executable face of `Model/Queue.lean` for the C17 correspondence check.
 
-def handle (_args : List Sexp) : Option String := none
+Requests (one whole history per line; messages are naturals, registers start at 0):
+* `queue run  <cls> <n> ((rst enq msg deq) ...)`   outputs of `runCls cls n 0` per cycle
+* `queue spec <cls> <n> ((rst enq msg deq) ...)`   outputs of `runSpec (style cls) (kind cls) (cap cls n)`
+Reply: one group per cycle separated by `|`: `enqRdy deqRdy ret count` (`ret` is `-` when absent). -/
+namespace PV.Driver.Queue
+open PV PV.Queue
+
+def cls? : String → Option Cls
+  | "qNormal" => some .qNormal | "qPipe" => some .qPipe | "qBypass" => some .qBypass
+  | "sNormal" => some .sNormal | "sPipe" => some .sPipe | "sBypass" => some .sBypass
+  | "erNormal1" => some .erNormal1 | "erPipe1" => some .erPipe1 | "erBypass1" => some .erBypass1
+  | "erBypass2" => some .erBypass2
+  | "vrNormal1" => some .vrNormal1 | "vrPipe1" => some .vrPipe1 | "vrBypass1" => some .vrBypass1
+  | "vrNormalN" => some .vrNormalN
+  | "clNormal" => some .clNormal | "clPipe" => some .clPipe | "clBypass" => some .clBypass
+  | _ => none
+
+def in? : Sexp → Option (In Nat)
+  | .list [r, e, m, d] => do some ⟨← r.bool?, ← e.bool?, ← m.nat?, ← d.bool?⟩
+  | _ => none
+
+def showOut (o : Out Nat) : String :=
+  let r := match o.ret with | some m => toString m | none => "-"
+  s!"{b2s o.enqRdy} {b2s o.deqRdy} {r} {o.count}"
+
+def showOuts (os : List (Out Nat)) : String :=
+  if os.isEmpty then "." else "|".intercalate (os.map showOut)
+
+def handle (args : List Sexp) : Option String :=
+  match args with
+  | [.atom "run", .atom c, n, .list is] => do
+      let c ← cls? c
+      let n ← n.nat?
+      if n = 0 then none
+      let is ← is.mapM in?
+      some (showOuts (runCls c n 0 is))
+  | [.atom "spec", .atom c, n, .list is] => do
+      let c ← cls? c
+      let n ← n.nat?
+      if n = 0 then none
+      let is ← is.mapM in?
+      some (showOuts (runSpec c.style c.kind (c.cap n) is))
+  | _ => none
 
 end PV.Driver.Queue
